@@ -501,9 +501,9 @@ fn check_log(case: &SchedCase, events: &[Event]) -> Vec<(String, Value)> {
     bad
 }
 
-const CLASSES: [&str; 12] = [
+const CLASSES: [&str; 14] = [
     "disjoint", "nested-later-inside", "nested-earlier-inside", "equal", "partial-overlap", "newest-covers-all", "first-fails", "middle-fails", "last-fails", "same-position-growing", "same-position-shrinking",
-    "mixed",
+    "mixed", "newest-covers-first-only", "newest-covers-second-only",
 ];
 
 fn geometry(class: &str, k: usize, rng: &mut Rng) -> Vec<Img> {
@@ -521,6 +521,15 @@ fn geometry(class: &str, k: usize, rng: &mut Rng) -> Vec<Img> {
                     Img { x: 0, y: 0, w: 400, h: 200, fails: false }
                 } else {
                     Img { x: 5 * i32_ + 1, y: 1 + i32_, w: 16, h: 12, fails: false }
+                }
+            }
+            // the newest image replaces exactly one older image; the survivors must keep their arrival order
+            "newest-covers-first-only" | "newest-covers-second-only" => {
+                let victim = if class == "newest-covers-first-only" || k < 3 { 0 } else { 1 };
+                if i + 1 == k && k > 1 {
+                    Img { x: 10 * victim, y: 1, w: 16, h: 12, fails: false }
+                } else {
+                    Img { x: 10 * i32_, y: 1, w: 16, h: 12, fails: false }
                 }
             }
             "first-fails" => Img { x: 6 * i32_, y: 0, w: 16, h: 12, fails: i == 0 },
@@ -610,7 +619,7 @@ impl Prop for C14 {
         "C14"
     }
     fn rule(&self) -> &'static str {
-        "(payload) seeded sixel payloads over data characters, '!' repeats <= 500, '$', '-', '#' selects and RGB/HLS definitions, raster attributes smaller/equal/larger than the data, rows of unequal length: Sixel::parse_from must give picture_data.len()==width*height*4, and with a 4-parameter raster the declared height and (when no drawn pixel lies beyond it) width. (schedule) k<=4 real DCS sixel sequences are fed through the real ANSI parser; every decode thread blocks in the gate hook; for every completion order (k!) x every placement of update_sixel_threads polls (2^k) x 12 geometry classes the harness releases one decode at a time, waits for is_finished, optionally polls (on a helper thread; all decoders it could wait for are held by the harness, so not returning within 6 s but returning once the gates open = blocked; after 3 blocked polls a worker skips its remaining schedules), records (step, released, polled, result, queue length, images on screen in layer order) and an offline checker compares every record with the model 'fold arrivals in order over the longest finished prefix, newer image removes older ones it contains'. distinct_nontrivial = distinct (class, order, polls) schedules plus distinct (width,height,raster,newline) payload outcomes"
+        "(payload) seeded sixel payloads over data characters, '!' repeats <= 500, '$', '-', '#' selects and RGB/HLS definitions, raster attributes smaller/equal/larger than the data, rows of unequal length: Sixel::parse_from must give picture_data.len()==width*height*4, and with a 4-parameter raster the declared height and (when no drawn pixel lies beyond it) width. (schedule) k<=4 real DCS sixel sequences are fed through the real ANSI parser; every decode thread blocks in the gate hook; for every completion order (k!) x every placement of update_sixel_threads polls (2^k) x 14 geometry classes the harness releases one decode at a time, waits for is_finished, optionally polls (on a helper thread; all decoders it could wait for are held by the harness, so not returning within 6 s but returning once the gates open = blocked; after 3 blocked polls a worker skips its remaining schedules), records (step, released, polled, result, queue length, images on screen in layer order) and an offline checker compares every record with the model 'fold arrivals in order over the longest finished prefix, newer image removes older ones it contains'. distinct_nontrivial = distinct (class, order, polls) schedules plus distinct (width,height,raster,newline) payload outcomes"
     }
     fn meta(&self, ctx: &Ctx) -> Value {
         json!({"floor_evaluations": 2000, "floor_distinct": ctx.tier.pick(500u64, 3000u64), "watchdog_s": 120,
